@@ -1,6 +1,7 @@
 //! vgraph: Layer-1 explorers on the REAL pipeline (logos_codegen::generate with the capture hook).
 mod common;
 mod families;
+mod gen;
 mod selfcheck;
 mod tokenlevel;
 
@@ -97,10 +98,19 @@ fn main() {
         "c10" => families::c10(&args),
         "c11" => families::c11(&args),
         "c12" => families::c12(&args),
+        "c06struct" => tokenlevel::c06struct(&args),
         "c16" => tokenlevel::c16(&args),
         "c18" => tokenlevel::c18(&args),
         "c19" => tokenlevel::c19(&args),
         "replay" => families::replay(&args),
+        "curated" => {
+            families::curated_status(&args);
+            return;
+        }
+        "gen" => {
+            gen::gen(&args);
+            return;
+        }
         "dump" => {
             families::dump(&args);
             return;
